@@ -61,12 +61,14 @@ fn space_for(tier: Tier) -> (Space, usize) {
     let n = spansets(SPANSET_INPUT.len()).len() as u64;
     match tier {
         Tier::Quick => {
-            s.ast("K", 5, 64).ast("CL", 3, 64).ast("U", 3, 64);
+            s.ast("K", 5, 64).ast("CL", 3, 64).ast("U", 3, 64).ast("GCM", 4, 64).ast("GCE", 3, 64);
+            s.ast_range("LP", 1, 3, 32, 5);
             s.list("spansets", n, 64);
             (s, 3)
         }
         Tier::Thorough => {
-            s.ast("K", 5, 64).ast("CL", 4, 64).ast("U", 4, 64).ast("GC", 5, 64);
+            s.ast("K", 5, 64).ast("CL", 4, 64).ast("U", 4, 64).ast("GC", 5, 64).ast("GCM", 5, 64).ast("GCE", 4, 64);
+            s.ast_range("LP", 1, 4, 32, 6);
             s.list("spansets", n, 64);
             (s, 4)
         }
@@ -254,6 +256,7 @@ impl Check for C04 {
             SegKind::Ast { scope, .. } => crate::gen::scope(scope).sigma,
             _ => unreachable!(),
         };
+        let maxlen = if seg.param > 0 { seg.param } else { maxlen };
         let inputs = all_strings(&sigma, maxlen);
         space::for_each_text(seg, lo, hi, &mut |_i, text| {
             let parsed = match common::ref_valid(text, ctx) {
